@@ -599,7 +599,8 @@ typedef struct {
     ABT_thread th, partner, parker;
     ABT_pool hold; /* where the partner parks: served by no scheduler */
     ABT_eventual ev;
-    volatile int cb_count, done, round, state_hint, cb_ready, last_pool, backs;
+    volatile int cb_count, done, round, state_hint, cb_ready, last_pool, backs, tok, cancelled;
+    int cancel_self; /* at its suspension the unit has asked for its own migration and cancellation */
 } mover_t;
 static volatile int g_partner_stop;
 static void partner_body(void *a)
@@ -723,6 +724,16 @@ static void mover_body(void *arg)
             int kind = m->block_kind;
             if (kind == 3 && (m->parker == ABT_THREAD_NULL || state_of(m->parker) != 2))
                 kind = 0;
+            if (m->cancel_self && kind != 3) {
+                /* a migration and a cancellation are both pending when it blocks: the migration is
+                 * performed there, the cancellation when it is resumed -- it never runs again */
+                int cur = last_pool_of_self();
+                request(m->id, m, 0, (cur + 1 + rnd(g_nes - 1)) % g_nes);
+                EV("\"e\":\"Cancel\",\"by\":%d,\"u\":%d", m->id, m->id);
+                CHK(ABT_thread_cancel(m->th));
+                EV("\"e\":\"CancelRet\",\"by\":%d,\"u\":%d", m->id, m->id);
+                m->cancelled = 1;
+            }
             EV("\"e\":\"Suspend\",\"u\":%d,\"how\":%d", m->id, kind);
             if (kind == 1) {
                 m->state_hint = 3;
@@ -750,6 +761,7 @@ static void mover_body(void *arg)
         EV("\"e\":\"Back\",\"u\":%d,\"pool\":%d", m->id, m->last_pool);
         m->backs++;
     }
+    m->tok = m->id * 10;
     m->done = 1;
     EV("\"e\":\"Finish\",\"u\":%d", m->id);
 }
@@ -782,6 +794,8 @@ static void mig_serve(int who)
             int mine = ((i % 2) && g_have_ext) ? -1 : 0;
             if (mine != who)
                 continue;
+            if (m->cancelled && !m->done && state_of(m->th) == 3)
+                m->done = 1; /* ended by its own cancellation request */
             if (m->done)
                 continue;
             alive = 1;
@@ -903,6 +917,9 @@ static void scn_migrate(void)
         m->cbmode = rnd(2);
         m->self_req = m->migratable ? (rnd(3) == 0 ? 1 + rnd(2) : 0) : 0;
         m->suspend_round = rnd(3) == 0 ? rnd(m->rounds) : -1;
+        m->cancel_self = m->migratable && m->suspend_round >= 0 && g_nes > 1 && m->block_kind != 3 && rnd(3) == 0;
+        if (m->cancel_self)
+            m->self_req = 1; /* (no requests from the others for this unit) */
         ABT_thread_attr attr;
         CHK(ABT_thread_attr_create(&attr));
         CHK(ABT_thread_attr_set_stacksize(attr, 65536));
@@ -939,7 +956,7 @@ static void scn_migrate(void)
     for (int i = 1; i <= g_nm; i++) {
         EV("\"e\":\"FreeCall\",\"by\":0,\"u\":%d", i);
         CHK(ABT_thread_free(&MV[i].th));
-        EV("\"e\":\"FreeRet\",\"by\":0,\"u\":%d,\"null\":%d,\"tok\":%d", i, MV[i].th == ABT_THREAD_NULL, i * 10);
+        EV("\"e\":\"FreeRet\",\"by\":0,\"u\":%d,\"null\":%d,\"tok\":%d", i, MV[i].th == ABT_THREAD_NULL, MV[i].tok);
         EV("\"e\":\"MigCount\",\"u\":%d,\"n\":%d", i, MV[i].cb_count);
     }
     /* let the partners and parkers finish */
